@@ -282,6 +282,61 @@ FUNCS = ['core.wl.protocol:get_arg', 'core.wl.protocol:get_arg_name', 'core.wl.p
          'core.wl.arg:Arg.Null.resolve', 'core.wl.arg:Arg.Int.value_to_str']
 
 
+SESSION_LINES = [
+    ('wl_surface', 5, 'set_opaque_region', 'nil'),
+    ('wl_surface', 5, 'attach', 'nil, 0, 0'),
+    ('wl_surface', 5, 'set_input_region', 'nil'),
+    ('wl_data_offer', 7, 'accept', '3, nil'),
+    ('wl_pointer', 8, 'set_cursor', '4, nil, 1, 2'),
+    ('wl_data_device', 9, 'selection', 'nil'),
+    ('wl_keyboard', 10, 'key', '1, 2, 30, 1'),
+    ('wl_pointer', 8, 'button', '1, 2, 272, 0'),
+    ('wl_seat', 11, 'capabilities', '3'),
+]
+
+
+def through_decoder(ctx, case):
+    """labels after the REAL path a log line takes: parse.message -> Message.resolve (descriptions loaded), for sessions of several lines in
+    any order: every nil / integer is labelled from ITS OWN message and position, whatever was decoded before"""
+    from core import wl
+    from spec import protocol_ref
+    from backends.libwayland_debug_output import parse
+    protocol, best = _load()
+    n = case
+    wl.Message.base_time = None
+
+    class Conn:
+        def wl_display(self):
+            return None
+
+        def retrieve_object(self, *a):
+            raise RuntimeError('unknown object')
+
+        def create_object(self, *a):
+            raise RuntimeError('unknown object')
+    conn = Conn()
+    for step in range(n):
+        iface, oid, mname, args = ctx.choose(SESSION_LINES, 'line%d' % step)
+        sent = ctx.choose([False, True], 'sent%d' % step) if step == 0 else False
+        line = '[%d.000]%s%s@%d.%s(%s)' % (1000 + step, '  -> ' if sent else ' ', iface, oid, mname, args)
+        cid, m = parse.message(line)
+        m.resolve(conn)
+        ref = _ref_for(protocol, best, iface)['messages'][mname]
+        ctx.check('`%s`: one argument per <arg>' % line, len(m.args) == len(ref))
+        for k, (a, r) in enumerate(zip(m.args, ref)):
+            ctx.check('step %d `%s`: argument %d is labelled %s' % (step, line, k, r['name']), a.name == r['name'])
+            if isinstance(a, wl.Arg.Null):
+                ctx.check('step %d `%s`: nil argument %d carries the interface the protocol declares (%s)' % (step, line, k, r['interface']), a.type == r['interface'])
+            if isinstance(a, wl.Arg.Int):
+                e = protocol_ref.enum_for(best, iface, mname, r)
+                if e is None:
+                    ctx.check('step %d `%s`: integer %d without enum is not annotated' % (step, line, k), not getattr(a, 'labels', None))
+                else:
+                    want = [en for en, ev in e['entries'] if ((ev & a.value) if e['bitfield'] else ev == a.value)]
+                    got = [str(x) for x in (getattr(a, 'labels', None) or [])]
+                    ctx.check('step %d `%s`: integer %d annotated with exactly the entries that apply (%s)' % (step, line, k, want), sorted(got) == sorted(want) or (not want and len(got) == 1))
+
+
 def obligations(tier):
     from spec import protocol_ref
     protocol, best = _load()
@@ -327,6 +382,9 @@ def obligations(tier):
            stubs=['parse_protocol replaced by synthetic Protocol objects']),
         Ob('reload-after-lookup', 'symx', 'lookups reflect the descriptions in force after a later load of a higher version / a dump and reload', FUNCS[:6] + ['core.wl.protocol:dump_all'],
            '2 versions x lookup before or not x 3 reload orders', reload_after_lookup, cases=[None], stubs=['parse_protocol replaced by synthetic Protocol objects']),
+        Ob('labels-through-the-decoder', 'symx', 'sessions of real log lines (nil in different slots, enum and plain integers) through parse.message and Message.resolve in any order: labels depend on the line alone',
+           FUNCS + ['backends.libwayland_debug_output.parse:message', 'core.wl.message:Message.resolve'], 'all sequences of <= %d lines from a pool of %d' % (3 if tier == 'quick' else 4, len(SESSION_LINES)),
+           through_decoder, cases=[1, 2, 3] if tier == 'quick' else [1, 2, 3, 4]),
         Ob('unknown-interface', 'symx', 'arguments of messages on undescribed interfaces (or untyped targets) stay undecorated and raise nothing', FUNCS,
            'any index, any value, 4 argument kinds', unknown_interface, cases=[None]),
     ]
